@@ -1,7 +1,9 @@
 (* Props/C15.v — Indexes never change query results.
    Only statements, `exact`, and Print Assumptions.
-   Labels: 0 = indexed label; property names: 1 = indexed property. *)
-From NDB Require Import Base.Bytes Index.OrderedKey IndexSem.Model IndexSem.Proofs.
+   Labels: 0 = indexed label; property names: 1 = indexed property.
+   The witness histories w_backfill, w_label, w_numeric, w_good are defined in IndexSem/Proofs.v. *)
+From NDB Require Import Base.Bytes Index.OrderedKey IndexSem.Model IndexSem.Proofs IndexSem.CyEq.
+From NDB Require Import Cypher.Value Cypher.Compare.
 Open Scope N_scope.
 
 (* the property on the model: for EVERY history of committed transactions, every label and
@@ -11,16 +13,8 @@ Definition C15_full_statement : Prop :=
   forall il ik (h : list op) l preds,
     seek_eval il ik (run il ik h) l preds = scan_eval (run il ik h) l preds.
 
-(* ... is false on the code as it is: three independent ways (known findings); the witness
-   histories w_backfill, w_label, w_numeric, w_good are defined in IndexSem/Proofs.v *)
-Definition C15_refuted_backfill_statement : Prop :=
-  seek_eval 0 1 (run 0 1 w_backfill) 0 [(1, OInt 1)] = [2] /\
-  scan_eval (run 0 1 w_backfill) 0 [(1, OInt 1)] = [0; 1; 2] /\
-  k_backfill 0 1 (run 0 1 w_backfill) = true.
-Theorem C15_refuted_backfill : C15_refuted_backfill_statement.
-Proof. exact refuted_backfill. Qed.
-Print Assumptions C15_refuted_backfill.
-
+(* ... is still false on the code as it is: index maintenance follows only the label a node
+   was created with (known finding K-C15-label) *)
 Definition C15_refuted_label_statement : Prop :=
   seek_eval 0 1 (run 0 1 w_label) 0 [(1, OInt 1)] = [0] /\
   scan_eval (run 0 1 w_label) 0 [(1, OInt 1)] = [0; 1] /\
@@ -29,19 +23,32 @@ Theorem C15_refuted_label : C15_refuted_label_statement.
 Proof. exact refuted_label. Qed.
 Print Assumptions C15_refuted_label.
 
-(* w_numeric stores the float 1.0 (bits 4607182418800017408) next to the integer 1 *)
-Definition C15_refuted_numeric_statement : Prop :=
-  seek_eval 0 1 (run 0 1 w_numeric) 0 [(1, OInt 1)] = [0] /\
-  scan_eval (run 0 1 w_numeric) 0 [(1, OInt 1)] = [0; 1] /\
-  k_numeric 0 1 (run 0 1 w_numeric) (OInt 1) = true /\ good 0 1 w_numeric = true.
-Theorem C15_refuted_numeric : C15_refuted_numeric_statement.
-Proof. exact refuted_numeric. Qed.
-Print Assumptions C15_refuted_numeric.
-
 Definition C15_refuted_statement : Prop := ~ C15_full_statement.
 Theorem C15_refuted : C15_refuted_statement.
 Proof. exact full_refuted. Qed.
 Print Assumptions C15_refuted.
+
+(* repaired defects, kept as regressions of the model: an index created over existing data
+   (create_index backfills) and a number stored in the other numeric type (the seek looks up
+   both encodings) *)
+Definition C15_fixed_backfill_statement : Prop :=
+  good 0 1 w_backfill = true /\
+  seek_eval 0 1 (run 0 1 w_backfill) 0 [(1, OInt 1)] = [0; 1; 2] /\
+  scan_eval (run 0 1 w_backfill) 0 [(1, OInt 1)] = [0; 1; 2].
+Theorem C15_fixed_backfill : C15_fixed_backfill_statement.
+Proof. exact fixed_backfill. Qed.
+Print Assumptions C15_fixed_backfill.
+
+(* w_numeric stores the float 1.0 (bits 4607182418800017408) next to the integer 1 *)
+Definition C15_fixed_numeric_statement : Prop :=
+  good 0 1 w_numeric = true /\
+  seek_eval 0 1 (run 0 1 w_numeric) 0 [(1, OInt 1)] = [0; 1] /\
+  scan_eval (run 0 1 w_numeric) 0 [(1, OInt 1)] = [0; 1] /\
+  seek_eval 0 1 (run 0 1 w_numeric) 0 [(1, OFloat 4607182418800017408)] = [0; 1] /\
+  k_numeric 0 1 (run 0 1 w_numeric) (OInt 1) = false.
+Theorem C15_fixed_numeric : C15_fixed_numeric_statement.
+Proof. exact fixed_numeric. Qed.
+Print Assumptions C15_fixed_numeric.
 
 (* state level: the seek equals the scan whenever the lookup result is duplicate-free and
    contains every live node that satisfies the predicates (whatever else it contains:
@@ -56,10 +63,13 @@ Theorem C15_seek_scan_state : C15_seek_scan_state_statement.
 Proof. exact seek_scan_state. Qed.
 Print Assumptions C15_seek_scan_state.
 
-(* history level: outside the known classes — no step that creates the index over existing
-   data, gives the indexed label to a node not created with it, or resynchronises the store
-   (`good`), and no stored number equal to the sought value in the other numeric kind — the
-   index is transparent, for every history, label and predicate list *)
+(* history level, for every history, label and predicate list: if no step gives the indexed
+   label to a node that was not created with it or resynchronises the store (`good`), the index
+   is transparent.  The remaining hypothesis `k_numeric ... = false` is not a class of inputs
+   any more: it says that for the sought value v0 no live labelled node stores an equal number
+   of the other numeric type whose encoding differs from the encoding of numeric_twin(v0) —
+   the arithmetic fact "the twin conversion is exact", which is not proved here and is instead
+   evaluated on every query of every correspondence case (Corr/C15.v; a hit is a violation). *)
 Definition C15_index_transparent_statement : Prop :=
   forall il ik (h : list op) l preds,
     good il ik h = true ->
@@ -80,3 +90,13 @@ Definition C15_nonvacuous_statement : Prop :=
 Theorem C15_nonvacuous : C15_nonvacuous_statement.
 Proof. exact nonvacuous. Qed.
 Print Assumptions C15_nonvacuous.
+
+(* the model's scalar equality is Cypher/Compare.v's cy_eq: proved for null / bool / int /
+   string operands; for floats (bit patterns vs primitive floats) computed on the boundary
+   samples here and on every compared pair of every correspondence case *)
+Definition C15_oeq_is_cy_eq_statement : Prop :=
+  (forall a b, no_float a = true -> no_float b = true -> oeq a b = cy_eq (to_value a) (to_value b)) /\
+  forallb (fun a => forallb (fun b => agree a b) f_samples) f_samples = true.
+Theorem C15_oeq_is_cy_eq : C15_oeq_is_cy_eq_statement.
+Proof. exact (conj oeq_cy_eq_no_float agree_samples). Qed.
+Print Assumptions C15_oeq_is_cy_eq.
